@@ -16,7 +16,8 @@ RULE = ("seeded topologies (1-3 molecule types in any order and count, 1-5-atom 
         "an own .gro reader compares the rows with the expansion of [molecules] computed from the spec, every "
         "coordinate must be finite (also watched at NonBondEngine.add_positions), and the box line must be the "
         "input-structure box / the requested box / the cube with V = M*1.660541/density. non-trivial = accepted run "
-        "with >= 2 molecules or >= 4 residues; distinct = hash(topology text, options)")
+        "with >= 2 molecules or >= 4 residues; distinct = hash(topology text, options)"
+        ' Later strata: PDB inputs with TER records, per-atom masses in [ atoms ] lines, two residue definitions under one name, rings declared cyclic that carry ligands.')
 ASSUMPTIONS = ["names <= 5 characters and < 99999 atoms so the fixed-width .gro columns are lossless",
                "box edge from density compared within 1.5e-5 nm (the program rounds the edge to 5 decimals)",
                "IOError/OSError = the program rejecting an input (counted); any other exception type is reported"]
